@@ -137,12 +137,14 @@ fn parse_args(args: &[&str]) -> Result<ParsedInfo, Box<dyn Error>> {
         paths.push(args[i].to_string());
         i += 1;
     }
-    if i == paths_start {
+    let no_operand = i == paths_start;
+    if no_operand {
         paths.push(".".to_string());
     }
     let matcher = matchers::build_top_level_matcher(&args[i..], &mut config)?;
     if let Some(new_paths) = &config.new_paths {
-        if paths.len() == 1 && paths[0] == "." {
+        // (not `paths == ["."]`: that can be an operand as well)
+        if no_operand {
             paths = new_paths.to_vec();
         } else {
             return Err(From::from(format!(
